@@ -499,7 +499,9 @@ func dt64Kind(p int, loc *time.Location, locName string) tk[time.Time] {
 }
 
 const enum8Def = "Enum8('a' = 1, 'b' = 2, 'c' = -3, 'dd' = 127, '' = -128)"
-const enum16Def = "Enum16('x' = 1000, 'y' = -1000, 'zz' = 32767, 'w' = 0)"
+// (one member name ends in an escaped backslash, the way the server prints the name y\ : the quote
+// behind it closes the name; the library keeps member names in their escaped spelling)
+const enum16Def = `Enum16('x' = 1000, 'y\\' = -1000, 'zz' = 32767, 'w' = 0)`
 
 func enumKind(def string, width int, names map[int64]string) tk[string] {
 	rev := map[string]int64{}
@@ -733,7 +735,7 @@ func init() {
 		from: func(v proto.DateTime64) ref.Val { return le(8, uint64(v)) }, val: bytesGen(8)}, false)
 
 	regAny(enumKind(enum8Def, 1, map[int64]string{1: "a", 2: "b", -3: "c", 127: "dd", -128: ""}))
-	regAny(enumKind(enum16Def, 2, map[int64]string{1000: "x", -1000: "y", 32767: "zz", 0: "w"}))
+	regAny(enumKind(enum16Def, 2, map[int64]string{1000: "x", -1000: `y\\`, 32767: "zz", 0: "w"}))
 
 	f64 := ref.Fixed("Float64", 8)
 	pointT := &ref.Type{K: ref.KTuple, Name: "Point", Elem: []*ref.Type{f64, f64}, Names: []string{"", ""}}
